@@ -20,7 +20,7 @@ for f in sorted(glob.glob(os.path.join(root, "seeded", "*", "meta.json"))):
     m = json.load(open(f))
     sid = m["id"]
     k = int(sid.split("-")[1])
-    rnd = (k + 2) // 3 if k <= 12 else (5 if k <= 14 else 6)
+    rnd = (k + 2) // 3 if k <= 12 else (5 if k <= 14 else (6 if k <= 16 else 7))
     if want and rnd != want:
         continue
     c = m["confirmed_by_coordinator"]
